@@ -2,8 +2,11 @@ SPECIFICATION Spec
 CONSTANTS NAsg = 3
  NGrd = 2
  NAnn = 2
- NPre = 2
+ NInA = 2
+ NInG = 1
+ NPre = 1
  NPost = 4
+ NNatPost = 2
  Deep = FALSE
 INVARIANT Sound
 INVARIANT ExecAgrees
